@@ -14,7 +14,15 @@ from ..common import Rng, seed
 from .C01 import random_programs
 
 _ALIAS_FN = ('Die Funktion foo gibt nichts zurück, macht:\n\tDie Zahl z ist 1.\nUnd kann so benutzt werden:\n\t"foo"\n')
+_PUNKT = 'Wir nennen die Kombination aus\n\tder Zahl x mit Standardwert 0,\neinen Punkt, und erstellen sie so:\n\t"ein Punkt"\n\n'
 KNOWN_SEEDS = [
+    ("alias-declaration-for-a-kombination", _PUNKT + 'Der Alias "mach Punkt" steht für die Funktion Punkt.\n'),
+    ("operator-overload-of-wrong-arity-then-used", 'Die Funktion f mit dem Parameter z vom Typ Text, gibt eine Zahl zurück, macht:\n\tGib 1 zurück.\nUnd überlädt den "plus" Operator.\n\nDie Zahl a ist "x" plus "y".\n'),
+    ("operator-overload-of-wrong-arity-unary-used-binary", 'Die Funktion f mit den Parametern y und z vom Typ Text und Text, gibt eine Zahl zurück, macht:\n\tGib 1 zurück.\nUnd überlädt den "Betrag" Operator.\n\nDie Zahl a ist der Betrag von "x".\n'),
+    ("operator-overload-of-wrong-arity-cast", _PUNKT + 'Die Funktion f gibt eine Zahl zurück, macht:\n\tGib 1 zurück.\nUnd überlädt den "als" Operator.\n\nDer Punkt p ist ein Punkt.\nDie Zahl a ist p als Zahl.\n'),
+    ("generic-function-instantiating-itself-with-a-bigger-type", 'Die generische Funktion f mit dem Parameter a vom Typ T, gibt nichts zurück, macht:\n\tDie T Liste l ist eine leere T Liste.\n\tf l.\nUnd kann so benutzt werden:\n\t"f <a>"\n\nf 1.\n'),
+    ("variable-named-like-a-kombination-then-field-access", _PUNKT + 'Der Punkt p ist ein Punkt.\nWenn wahr, dann:\n\tDie Zahl Punkt ist 1.\n\tDie Zahl y ist x von p.\n'),
+    ("list-alias-initialised-by-repetition", 'Wir nennen eine Zahlen Liste auch eine Reihung.\nDie Reihung r ist 2 Mal 1.\n'),
     ("alias-declaration-as-if-body", _ALIAS_FN + 'Wenn wahr, Der Alias "bar" steht für die Funktion foo.\n'),
     ("alias-declaration-as-else-body", _ALIAS_FN + 'Wenn falsch, foo.\nSonst Der Alias "bar" steht für die Funktion foo.\n'),
     ("alias-declaration-as-while-body", _ALIAS_FN + 'Solange falsch, Der Alias "bar" steht für die Funktion foo.\n'),
